@@ -1232,8 +1232,13 @@ async fn run_openresponses_agent_loop(
 
         let (payload, request_kind) = if let Some(tool_outputs) = followup_tool_outputs.take() {
             if stateless_history {
+                // The follow-up user message is part of what the provider was sent: keep it in
+                // the accumulated history so each request's input extends the previous one.
+                if let Some(message) = config.followup_user_message.as_deref() {
+                    history_items.push(ItemParam::user_message_text(message));
+                }
                 (
-                    build_streaming_followup_request(config, None, history_items.clone()),
+                    build_streaming_request_items(config, history_items.clone()),
                     "followup_stateless_history",
                 )
             } else {
